@@ -2,6 +2,7 @@ import ThruVerif.Model.ProtoL
 import ThruVerif.Model.Path
 import ThruVerif.Model.Budget
 import ThruVerif.Gen.Consts
+import ThruVerif.Proofs.ProtoLM
 /-!
 # C03 — Every transfer between healthy peers completes
 
@@ -259,6 +260,52 @@ example : ∃ s, step (init 4 1) (.dispatch 0) = some s ∧ (step s .accept).isS
   refine ⟨_, rfl, ?_⟩; decide
 
 end TV.ProtoLFix
+
+namespace TV.ProtoLM
+
+/-! ## the whole manifest: `k` files over `n` data streams (any chunk counts, any `n ≥ 1`) -/
+
+/-- **C03_manifest_completes.** In every reachable state of the manifest-level abstraction that is not final (the
+receiver has not yet seen `End`), some step is enabled; and every step strictly decreases `measure`. Hence every run
+ends, after at most `measure (init …)` steps, with `End` received - which happens only after every file was confirmed. -/
+theorem C03_manifest_completes {k n : Nat} {chunks : Nat → Nat} (hn : 0 < n) {s : St} (h : Reachable k n chunks s) :
+    (s.endAllRecv = false → ∃ a s', step s a = some s') ∧
+    (∀ a s', step s a = some s' → measure s' < measure s) ∧
+    (s.endAllRecv = true → ∀ f, f < s.k → s.doneRecv f = true ∧ s.remaining f = 0) := by
+  have hi := reachable_inv hn h
+  refine ⟨progress hi, fun a s' hs => step_measure hi hs, ?_⟩
+  intro he f hf
+  have hd := hi.eas (hi.ear he) f hf
+  exact ⟨hd, (hi.done1 f hf (hi.dr f hf hd)).1⟩
+
+def run (s : St) : List Step → Option St
+  | [] => some s
+  | a :: as => match step s a with | some s' => run s' as | none => none
+
+/-- a run can never be longer than the measure of the state it starts from -/
+theorem run_length_le {k n : Nat} {chunks : Nat → Nat} (hn : 0 < n) {s s' : St} (h : Reachable k n chunks s)
+    (as : List Step) (hr : run s as = some s') : as.length + measure s' ≤ measure s := by
+  induction as generalizing s with
+  | nil => simp only [run, Option.some.injEq] at hr; subst hr; simp
+  | cons a as ih =>
+    simp only [run] at hr
+    split at hr
+    · rename_i s1 h1
+      have := ih (Reachable.step a h h1) hr
+      have hm := step_measure (reachable_inv hn h) h1
+      simp only [List.length_cons]
+      omega
+    · cases hr
+
+-- non-vacuity: two files (1 and 2 chunks) over two streams; the receiver accepts the streams while frames are already arriving
+example : ((run (init 2 2 (fun f => f + 1))
+    [.dispatch 1 1, .dispatch 0 0, .accept, .readFrame 0 0, .dispatch 1 0, .sendEnd 0, .sendEnd 1, .recvEnd 0, .recvDone 0,
+     .accept, .readFrame 1 1, .readFrame 0 1, .recvEnd 1, .recvDone 1, .sendEndAll, .recvEndAll]).map (·.endAllRecv)) = some true := by
+  decide
+-- a frame on a stream that is not yet accepted cannot be read
+example : ((run (init 2 2 (fun f => f + 1)) [.dispatch 1 1, .readFrame 1 1]).map (·.endAllRecv)) = none := by decide
+
+end TV.ProtoLM
 
 namespace TV.C03
 open TV TV.Path
